@@ -106,7 +106,7 @@ def run_setalg(cx: Cx, ob: Ob, want: str) -> None:
         if not stores:
             continue
         n += 1
-        alg = SetAlg(rec, "prefix", "prefix_synonyms", {old: "old", new: "new"})
+        alg = SetAlg(rec, "prefix", "prefix_synonyms", {old: "old", new: "new"}, summary=s)
         for ev in stores:
             alg.apply_store(ev.a, ev.b)
         line = stores[0].line
@@ -222,7 +222,9 @@ def d5(cx: Cx, ob: Ob) -> None:
     for p in lp.body:
         guards = [g for g in p.events if g.kind == "guard"]
         stores = [ev for ev in p.events if ev.kind == "store"]
-        unknown = any(op(g.a) == "cmp" and g.a[1] in ("is", "==") and is_const(g.a[3], None) and g.b is True and any(x == old for x in subterms(g.a)) for g in guards)
+        unknown = any(op(g.a) == "cmp" and g.a[1] in ("is", "==") and is_const(g.a[3], None) and g.b is True and any(x == old for x in subterms(g.a)) for g in guards) or any(
+            op(g.a) == "cmp" and g.a[1] == "in" and g.a[2] == old and g.b is False and op(g.a[3]) == "attr" and g.a[3][2] in ("synonym_to_prefix", "prefix_map") for g in guards
+        ) or any(op(g.a) == "cmp" and g.a[1] == "in" and g.a[2] == old and g.b is False and callee_name(g.a[3]) == "get_prefixes" for g in guards)
         clash = any(g.b is True and _consults_owner_of(g.a, new, conv) for g in guards)
         if unknown:
             seen_unknown = True
